@@ -39,8 +39,8 @@ POSITIONS = ["id", "lpath_dst", "lpath_src", "cdir", "name", "address", "message
 #   validator-json-escape (2f36fc5, validate/serde.rs): rocfl validate reports no error for ids, content directories,
 #     addresses, content and logical paths that need a JSON escape.
 # The only residual difference between the main reader and a conforming decoder is an escaped spelling of head / a version
-# key, which rocfl never writes (KnownC10.c10_foreign_escaped_version_name); it is exercised by the foreign-spelling part.
-FOREIGN_SLUG = "foreign-escaped-version-name"
+# key, which rocfl never writes (Json.escaped_version_name_token, a hypothesis of the foreign-spelling theorems, not a
+# known class); it is exercised by the foreign-spelling part.
 PAYLOAD = b"hello C10"
 
 
@@ -752,7 +752,7 @@ def run(ctx):
     if not okb:
         raise common.BuildError("Corr/CheckJson.v does not build:\n" + log[-3000:])
     known_ids = {k["id"] for k in ctx.known}
-    imports = ["Base.Bytes", "Model.VersionNum", "Model.Json", "Model.KnownC10", "Corr.CheckJson"]
+    imports = ["Base.Bytes", "Model.VersionNum", "Model.Json", "Corr.CheckJson"]
 
     # ---- decoder correspondence on arbitrary tokens
     tokens = gen_tokens(ctx)
@@ -869,8 +869,6 @@ def run(ctx):
         if cls and cls[0] and not m_:
             # an escaped spelling of head / a version key: rocfl never writes it, the main reader refuses it (types.rs:43)
             fstats["escaped_head_or_version_key_refused_by_main_reader"] += 1
-            if FOREIGN_SLUG in known_ids:
-                ctx.known_hit(FOREIGN_SLUG)
         if checks is None or not all(checks):
             common.corr_break(ctx, "Corr.CheckJson check_foreign (Model/Json.v main_read_pos / val_read_pos vs serde.rs / validate/serde.rs)",
                               {"input": {"position": cp_, "string": t_, "token": k_.decode("ascii"), "respelling": how},
